@@ -178,6 +178,26 @@ Theorem scanner_required_constructed : forall text lit (f : pfname) id e,
 Proof. exact Proofs.Errors.scanner_required_constructed. Qed.
 Print Assumptions scanner_required_constructed.
 
+(* The shape format_error_total relies on: messages are built by CONCATENATION, never by formatting
+   over user text.  str(error) is a class prefix (a function of the class, error_type and line
+   number only) followed by the message verbatim -- for every message, whatever braces, percent
+   signs, backslashes or line breaks it contains *)
+Theorem err_str_concat : forall e, err_str e = kind_prefix (e_kind e) ++ e_msg e.
+Proof. exact Proofs.Errors.err_str_concat. Qed.
+Print Assumptions err_str_concat.
+
+(* ... so two errors of the same kind differ in str() exactly by their messages *)
+Theorem err_str_message_inert : forall id id' m m' fn fn' k c c',
+  exists pre, err_str (mkErr id m fn k c) = pre ++ m /\ err_str (mkErr id' m' fn' k c') = pre ++ m'.
+Proof. exact Proofs.Errors.err_str_message_inert. Qed.
+Print Assumptions err_str_message_inert.
+
+(* ... and the rendering of a well-formed error contains prefix + class prefix + message verbatim *)
+Theorem format_error_message_verbatim : forall e p,
+  wf_err e -> exists s, format_error e p = Ok s /\ infix (p ++ kind_prefix (e_kind e) ++ e_msg e) s.
+Proof. exact Proofs.Errors.format_error_message_verbatim. Qed.
+Print Assumptions format_error_message_verbatim.
+
 (* ---- non-vacuity ---- *)
 Definition ex_aux : err :=
   mkErr 1 (s2l "illegal, another \bibstyle command") (FnStr (s2l "x.aux")) (SAux (Some 3%Z)) (CAux (Some (s2l "\bibstyle{b}"))).
@@ -241,3 +261,12 @@ Example bytes_filename_example :
   /\ utf8_replace [226; 130; 172; 226; 130; 65; 240; 159; 152; 128; 237; 160; 128; 192; 175]%N
      = [8364; 65533; 65; 128512; 65533; 65533; 65533; 65533; 65533]%N.
 Proof. split; vm_compute; reflexivity. Qed.
+
+(* a message full of format directives is inert *)
+Example hostile_message_example :
+  format_error (new_aux_error 1 (s2l "case mismatch error between cite keys Baz{0} and baz{0}{x}%s%(a)s\")
+                  (mkAuxctx (PStr (s2l "a{0}.aux")) (Some 2%Z) (Some (s2l "\citation{baz{0}{x}%s%(a)s\}")))) (s2l "WARNING: ")
+  = Ok (s2l "a{0}.aux: \citation{baz{0}{x}%s%(a)s\}" ++ [10%N] ++
+        s2l "a{0}.aux: " ++ repeat 94%N 28 ++ [10%N] ++
+        s2l "a{0}.aux: WARNING: in line 2: case mismatch error between cite keys Baz{0} and baz{0}{x}%s%(a)s\").
+Proof. vm_compute. reflexivity. Qed.
